@@ -153,3 +153,39 @@ Definition with_recorder {A} (d : design A) (uq : list nat) (drv : nat) (en : op
 (* an operation history on a recorder taken alone: clock() with the given wire values, or clear() *)
 Definition wf_op (r : wf) (o : C15.wop) : wf :=
   match o with C15.WClock vs => wf_clock r vs | C15.WClear => wf_clear r end.
+
+(* ------------------------------------------------------------------ plumbing for the case files of py/props/c15.py
+   (comparisons are done inside Coq; only the index of the first mismatch is printed) *)
+Fixpoint leqb {A} (e : A -> A -> bool) (a b : list A) : bool :=
+  match a, b with
+  | [], [] => true
+  | x :: a', y :: b' => e x y && leqb e a' b'
+  | _, _ => false
+  end.
+Definition zl_eqb : list Z -> list Z -> bool := leqb Z.eqb.
+Definition zll_eqb : list (list Z) -> list (list Z) -> bool := leqb zl_eqb.
+Definition dict_eqb : dict -> dict -> bool := leqb (fun p q => Nat.eqb (fst p) (fst q) && zl_eqb (snd p) (snd q)).
+Definition row_eqb (p q : list Z * list (list Z)) : bool := zl_eqb (fst p) (fst q) && zll_eqb (snd p) (snd q).
+Definition snap : Type := dict * (list Z * list (list Z * list (list Z))).
+Definition snap_eqb (p q : snap) : bool :=
+  dict_eqb (fst p) (fst q) && zl_eqb (fst (snd p)) (fst (snd q)) && leqb row_eqb (snd (snd p)) (snd (snd q)).
+Definition snap_of (ws : list Z) (r : wf) : snap := (wf_getDict r, wf_wavedrom ws r).
+
+(* the recorder after each group of operations *)
+Fixpoint wf_groups (r : wf) (groups : list (list C15.wop)) : list wf :=
+  match groups with
+  | [] => []
+  | g :: t => let r' := fold_left wf_op g r in r' :: wf_groups r' t
+  end.
+
+Fixpoint first_false_from (k : nat) (l : list bool) : option nat :=
+  match l with [] => None | b :: t => if b then first_false_from (S k) t else Some k end.
+Definition first_false := first_false_from 0.
+
+Fixpoint map2 {A B C} (f : A -> B -> C) (a : list A) (b : list B) : list C :=
+  match a, b with x :: a', y :: b' => f x y :: map2 f a' b' | _, _ => [] end.
+
+(* index of the first checkpoint where the model's (getDict, get_wavedrom) differs from the implementation's *)
+Definition model_vs_impl (ws : list Z) (entries : list entry) (groups : list (list C15.wop)) (impl : list snap) : option nat :=
+  let ms := map (snap_of ws) (wf_groups (wf_init ws entries) groups) in
+  if Nat.eqb (length ms) (length impl) then first_false (map2 snap_eqb ms impl) else Some (length impl).
